@@ -4,7 +4,7 @@ package lua
 
 // C18.sort — table.sort with the default comparator gives an ordered permutation.
 //
-//verif:harness prop=C18 tier=quick qparams=n:3 tparams=n:4 bounds="n<=3 (quick) / 4 (thorough) symbolic float64 elements, NaN excluded"
+//verif:harness prop=C18 tier=quick qparams=n:3 tparams=n:4 bounds="n<=3 (quick) / 4 (thorough) symbolic float64 elements, NaN excluded; optionally with a cleared slot after the last element"
 func H_C18_sort() {
 	L := newL(Options{}, TabLibName)
 	n := VChoice(VParam("n", 3) + 1)
@@ -14,6 +14,12 @@ func H_C18_sort() {
 		in[i] = VFloat("e")
 		VAssume(in[i] == in[i])
 		tb.RawSetInt(i+1, LNumber(in[i]))
+	}
+	// optionally the list was one longer and its last element has been cleared again (t[n+1] = x; t[n+1] = nil):
+	// the array part keeps the slot, the list does not include it
+	if VChoice(2) == 1 {
+		tb.RawSetInt(n+1, LNumber(5))
+		tb.RawSetInt(n+1, LNil)
 	}
 	L.Push(L.GetField(L.GetGlobal("table"), "sort"))
 	L.Push(tb)
@@ -187,7 +193,15 @@ func H_C18_concat() {
 	n := VChoice(4)
 	tb := L.NewTable()
 	var model []string
+	numbers := VChoice(2) == 1 // the elements are numbers (their decimal spelling is concatenated)
 	for i := 0; i < n; i++ {
+		if numbers {
+			d := VByte("d")
+			VAssume(d <= 9)
+			model = append(model, string([]byte{'0' + d}))
+			tb.RawSetInt(i+1, LNumber(int(VConc(int(d)))))
+			continue
+		}
 		s := VStr("e", 1)
 		model = append(model, s)
 		tb.RawSetInt(i+1, LString(s))
@@ -222,6 +236,7 @@ func H_C18_concat() {
 		}
 	}
 	got, ok := L.Get(-1).(LString)
+	VAssert(ok, "concat: the result is a string (also for a single number element)")
 	VAssert(ok && string(got) == want, "concat: t[i]..sep..t[i+1] ... sep..t[j]")
 	VReach("end")
 }
